@@ -214,3 +214,72 @@ func init() {
 		stats["directed_combinations_of_1344"] = len(seen)
 	}
 }
+
+func init() {
+	// c12: few seeds / paths / names / action IDs, many configurations, so that "depends only on" and
+	// "changes whenever" can be observed as (in)equalities between answers of one history.
+	streams["c12"] = func(n int) {
+		seeds := [][]byte{nil, nil, randBytes(8), randBytes(8), randBytes(9), randBytes(32)}
+		paths := []string{"runtime", "main", "example.com/a", "example.com/a/b", "example.com/ab", "gv.example/mod-a/pkg.b"}
+		names := []string{"Foo", "foo", "T", "field", "example.com/a", "main.go:12", "Ünï"}
+		actions := [][]byte{randBytes(15), randBytes(15), randBytes(15)}
+		binids := [][]byte{randBytes(15), randBytes(15)}
+		ggs := []string{"*", "example.com/a", "example.com/a,example.com/b", "mod, -tiny", "mod,", "mod -literals", "mod", "a -seed=AAAAAAAAAAA", "a"}
+		for i := 0; i < n; i++ {
+			switch r := rnd.IntN(100); {
+			case r < 10:
+				curSeed = pick(seeds)
+				emit("seed %s", hx(curSeed))
+				stats[fmt.Sprintf("seed_len_%d", len(curSeed))]++
+			case r < 30:
+				dd := ""
+				if rnd.IntN(3) == 0 {
+					dd = "/tmp/dbg"
+				}
+				emit("cfg %d %d %d %s %d - %s %s", rnd.IntN(2), rnd.IntN(2), rnd.IntN(2), hs(dd), rnd.IntN(2), hs(pick(ggs)), hx(pick(binids)))
+				stats["cfg"]++
+			case r < 40:
+				emit("pkg %s %s", hs(pick(paths)), hx(randBytes(32)))
+				stats["pkg"]++
+			case r < 60:
+				emit("gaction %s", hx(pick(actions)))
+				stats["gaction"]++
+			case r < 65:
+				emit("flags %d", rnd.IntN(2))
+				stats["flags"]++
+			case r < 70:
+				emit(pick([]string{"magic", "entryoff"}))
+				stats["runtimehash"]++
+			case r < 78:
+				emitSeedSet()
+			default:
+				name := pick(names)
+				emit("hpkg %s %s %d", hs(pick(paths)), hs(name), classOf(name))
+				stats["hpkg"]++
+			}
+		}
+	}
+}
+
+func emitSeedSet() {
+	const std = "ABCDEFGHIJKLMNOPQRSTUVWXYZabcdefghijklmnopqrstuvwxyz0123456789+/"
+	var s []byte
+	n := pick([]int{0, 1, 5, 10, 11, 12, 13, 14, 15, 16, 22, 43, 44})
+	for i := 0; i < n; i++ {
+		s = append(s, std[rnd.IntN(64)])
+	}
+	switch rnd.IntN(8) {
+	case 0:
+		s = append(s, "="...)
+	case 1:
+		s = append(s, "=="...)
+	case 2:
+		if len(s) > 0 {
+			s[rnd.IntN(len(s))] = pick([]byte{'-', '_', ' ', '\n', '\r', '=', '!', 0xc3})
+		}
+	case 3:
+		s = []byte(pick([]string{"o9WDTZ4CN4w", "o9WDTZ4CN4w=", "AAAAAAAAAAA", "random_", "", "=", "====", "o9WDTZ4CN4", "o9WD\nTZ4CN4w"}))
+	}
+	emit("seedset %s", hx(s))
+	stats["seedset"]++
+}
